@@ -275,6 +275,7 @@ func c02Getters(c *wk.Ctx, r *rand.Rand, e gen.Env, idx int64) {
 		}
 		c.Class(fmt.Sprintf("getters:%s", g.view))
 		c.Obs("getter_comparisons", int64(g.n))
+		c.Obs("getters_compared:"+g.view, int64(g.n))
 	}()
 	a4 := func() netip.Addr { a, _ := e.IP4(r); return a }
 	a6 := func() netip.Addr { a, _ := e.IP6(r); return a }
